@@ -2,7 +2,7 @@
 import json
 import os
 
-from .. import extract, flow, guards, intervals, optstate
+from .. import extract, flow, guards, intervals, lenrel, optstate
 from ..facts import callee_def, short
 from ..report import AnchorMissing
 from ..roles import Roles
@@ -179,7 +179,109 @@ def discharge(db, b, s):
         why = discharge_assert(db, b, s)
         if why:
             return why
+    if s["kind"] in ("index", "assert:bounds") or s["kind"].startswith("lib:"):
+        why = discharge_length(db, b, s)
+        if why:
+            return why
+    if s["kind"].startswith("lib:"):
+        why = discharge_lib_const(db, b, s)
+        if why:
+            return why
     return infeasible_otherwise(db, b, bi)
+
+
+def discharge_lib_const(db, b, s):
+    """library calls whose panic condition is decided by literal arguments"""
+    t = b.blocks[s["bi"]]["term"]
+    d = s["callee"]
+    if d == "http::header::value::HeaderValue::from_static" and len(t["args"]) == 1:
+        c = flow.const_of(b, t["args"][0])
+        if c is not None and c.get("c") == "str" and all(ch == "\t" or 0x20 <= ord(ch) < 0x7f for ch in c["v"]):
+            return "from_static on the literal %r: only visible ASCII, which is what the function requires" % c["v"]
+    if d == "bytestring::ByteString::from_static" and len(t["args"]) == 1:
+        c = flow.const_of(b, t["args"][0])
+        if c is not None and c.get("c") == "str":
+            return "ByteString::from_static on a literal never panics"
+    if d == "time::duration::Duration::new" and len(t["args"]) == 2:
+        n = _iv(db).op(b, t["args"][1], s["bi"])
+        sec = _iv(db).op(b, t["args"][0], s["bi"])
+        if n == (0, 0):
+            return "Duration::new(_, 0): no nanosecond carry, so the seconds are stored as they are"
+        if n not in (None, intervals.EMPTY) and sec not in (None, intervals.EMPTY) and -999999999 <= n[0] and n[1] <= 999999999 and \
+                -(1 << 62) <= sec[0] and sec[1] <= (1 << 62):
+            return "Duration::new: seconds %s and nanoseconds %s cannot overflow" % (_fmt(sec), _fmt(n))
+    return None
+
+
+_LR = {}
+
+
+def _lr(db):
+    if id(db) not in _LR:
+        _LR.clear()
+        _LR[id(db)] = lenrel.LenRel(db, _iv(db))
+    return _LR[id(db)]
+
+
+LEN_LIBS = {"advance": False, "split_to": False, "split_off": False, "split_at": False, "split_at_mut": False, "truncate": False}
+
+
+def discharge_length(db, b, s):
+    """the index / split position is provably within the buffer it is applied to (s3sv/lenrel.py)"""
+    lr = _lr(db)
+    bi = s["bi"]
+    t = b.blocks[bi]["term"]
+    pt = lenrel.Point(bi, None)
+    if s["kind"] == "assert:bounds":
+        p, rv = _cond_def(b, bi)
+        if rv is None or rv["k"] != "bin" or rv["op"] != "Lt":
+            return None
+        # the length operand names the buffer
+        lp = flow.op_place(rv["ops"][1])
+        if lp is None:
+            return None
+        si = len(b.blocks[bi]["stmts"])
+        d = lr.one_def(b, lp["l"], pt)
+        if d is None or d[0] != "stmt" or d[3]["rv"]["k"] != "un" or d[3]["rv"].get("op") != "PtrMetadata":
+            return None
+        key = lr.key_of(b, d[3]["rv"]["ops"][0], lenrel.Point(d[1], d[2]))
+        if key is None:
+            return None
+        why = lr.le_len(b, rv["ops"][0], key, pt, strict=True)
+        return ("index within the slice: %s" % why) if why else None
+    if t["k"] != "call" or len(t["args"]) < 2:
+        return None
+    key = lr.key_of(b, t["args"][0], pt)
+    if key is None:
+        return None
+    if s["kind"].startswith("lib:"):
+        if s["kind"][4:] not in LEN_LIBS:
+            return None
+        why = lr.le_len(b, t["args"][1], key, pt, strict=False)
+        return ("%s position within the buffer: %s" % (s["kind"][4:], why)) if why else None
+    # Index::index(buffer, idx)
+    ip = flow.op_place(t["args"][1])
+    if ip is None or ip["proj"]:
+        return None
+    d = lr.one_def(b, ip["l"], pt)
+    if d is not None and d[0] == "stmt" and d[3]["rv"]["k"] == "agg" and d[3]["rv"].get("agg") == "adt":
+        rv = d[3]["rv"]
+        at = lenrel.Point(d[1], d[2])
+        adt = rv.get("adt", "")
+        m = dict(zip(rv.get("fields", []), rv["ops"]))
+        if adt == "core::ops::range::RangeFull":
+            return "full range"
+        if adt == "core::ops::range::RangeTo" and "end" in m:
+            why = lr.le_len(b, m["end"], key, at)
+            return ("range end within the slice: %s" % why) if why and lr.unchanged(b, key, at, pt) else None
+        if adt == "core::ops::range::RangeFrom" and "start" in m:
+            why = lr.le_len(b, m["start"], key, at)
+            return ("range start within the slice: %s" % why) if why and lr.unchanged(b, key, at, pt) else None
+        return None
+    if "usize" in (b.locals[ip["l"]] if ip["l"] < len(b.locals) else ""):
+        why = lr.le_len(b, t["args"][1], key, pt, strict=True)
+        return ("index within the buffer: %s" % why) if why else None
+    return None
 
 
 def infeasible_otherwise(db, b, bi):
@@ -455,6 +557,7 @@ def fingerprint(b, s):
         p, rv = _cond_def(b, s["bi"])
         ops = list(rv["ops"]) if rv is not None else []
     names, consts = set(), set()
+    names1 = set()
     for o in ops:
         if not isinstance(o, dict):
             continue
@@ -463,14 +566,27 @@ def fingerprint(b, s):
                 consts.add(str(o.get("v"))[:24])
             continue
         sl = flow.backward(b, o, at=s["bi"], max_nodes=400, through_calls=False)
-        for _, ct, _ in sl.calls:
+        level1 = []
+        for cb, ct, _ in sl.calls:
             d = callee_def(ct)
             if not flow.is_transparent(ct) and not from_skipped_macro(ct.get("span")):
                 names.add(short(d))
+                names1.add(short(d))
+                level1.append((cb, ct))
+        # one more hop: what the first-level calls were applied to (`iter.next()` <- `headers.get_all(name)`)
+        for cb, ct in level1:
+            for a in ct["args"]:
+                if isinstance(a, dict) and "p" in a:
+                    s2 = flow.backward(b, a, at=cb, max_nodes=200, through_calls=False)
+                    for _, c2, _ in s2.calls:
+                        if not flow.is_transparent(c2) and not from_skipped_macro(c2.get("span")):
+                            names.add(short(callee_def(c2)))
         for c in sl.consts:
             if c.get("c") in ("str", "bstr", "int"):
                 consts.add(str(c.get("v"))[:24])
-    return "%s|%s|%s|%s" % (s["kind"], short(s["callee"]) if s["callee"] else "", ",".join(sorted(names)[:14]), ",".join(sorted(consts)[:10]))
+    head = "%s|%s|" % (s["kind"], short(s["callee"]) if s["callee"] else "")
+    tail = "|" + ",".join(sorted(consts)[:10])
+    return head + ",".join(sorted(names1)[:14]) + tail, head + ",".join(sorted(names)[:14]) + tail
 
 
 WEAK_NAMES = {"next", "into_iter", "iter", "get", "first", "last", "pop", "peek", "take", "as_ref", "as_mut"}
@@ -516,7 +632,11 @@ def rule_r5(chk, db, tier):
     table = load_table()
     # (a fingerprint that says nothing about the operands would match unrelated sites: not used)
     # and one whose operands are only an iterator step / element access would match any such site)
-    by_fp = {(e["fp"], e.get("file")): e for e in table.values() if e.get("fp") and not _weak_fp(e["fp"])}
+    by_fp = {}
+    for e in table.values():
+        for fp in (e.get("fp"), e.get("fp2")):
+            if fp and not _weak_fp(fp):
+                by_fp[(fp, e.get("file"))] = e
     n_fp = 0
     chk.stats["request_path_bodies"] = len(bodies)
     chk.floor("R5.bodies", len(bodies), 400, "bodies reachable from S3Service::call")
@@ -532,8 +652,9 @@ def rule_r5(chk, db, tier):
         e = table.get(s["key"])
         if e is None:
             # the same construct in a renamed / moved / extracted function
-            fp = fingerprint(b, s)
-            e = by_fp.get((fp, s["loc"].rsplit(":", 1)[0]))
+            fps = fingerprint(b, s)
+            f0 = s["loc"].rsplit(":", 1)[0]
+            e = by_fp.get((fps[0], f0)) or by_fp.get((fps[1], f0))
             if e is not None:
                 n_fp += 1
         if e is not None:
@@ -554,7 +675,7 @@ def rule_r5(chk, db, tier):
     chk.stats["panic_sites_reviewed_with_checked_lemma"] = n_lem
     chk.stats["panic_sites_matched_by_fingerprint_only"] = n_fp
     chk.floor("R5", len(sites), 90, "explicit panic constructs on the request path")
-    chk.floor("R5.discharged", n_dis, 45, "panic constructs discharged by a proof rule")
+    chk.floor("R5.discharged", n_dis, 62, "panic constructs discharged by a proof rule")
     stale = sorted(set(table) - {s["key"] for s in sites}) if not n_fp else []
     if stale:
         chk.advisory("%d entries of oracles/panic_sites.json no longer match a site (e.g. %s)" % (len(stale), stale[:2]))
@@ -574,7 +695,7 @@ if __name__ == "__main__":
         for e in d["sites"]:
             s0 = bykey.get(e["key"])
             if s0 is not None:
-                e["fp"] = fingerprint(s0["body"], s0)
+                e["fp"], e["fp2"] = fingerprint(s0["body"], s0)
                 e["file"] = s0["loc"].rsplit(":", 1)[0]
         with open(TABLE, "w") as fh:
             json.dump(d, fh, indent=1)
